@@ -210,7 +210,17 @@ func expectAttr(c, k sb.V, args []sb.V) expect {
 		return expect{mode: "error"}
 	case c.K == "arr" || strings.HasPrefix(c.K, "slice:") || strings.HasPrefix(c.K, "array:"):
 		if !isNumKind(k.K) {
-			return expect{mode: "nopanic"}
+			// a numeric string may be taken as an index; anything else (a
+			// word, a boolean, null, a container) cannot be used as one
+			if k.K == "str" {
+				if _, err := strconv.ParseFloat(k.S, 64); err == nil {
+					return expect{mode: "nopanic"}
+				}
+			}
+			if k.K == "safe" || k.K == "stringer" || k.K == "decimal" {
+				return expect{mode: "nopanic"}
+			}
+			return expect{mode: "error"}
 		}
 		f := numOf(k)
 		if f != math.Trunc(f) || math.IsNaN(f) || math.Abs(f) > 1e9 {
